@@ -52,6 +52,8 @@ Fam == <<
   \* ; then a A 1 ; = SP HTAB *
   [fn |-> "params",    pre |-> <<59>>,      alpha |-> {97, 65, 49, 59, 61, 32, 9, 42}, n |-> 3 + Extra],
   [fn |-> "params",    pre |-> << >>,       alpha |-> {97, 59, 61, 34, 63}, n |-> 4 + Extra],
+  \* a valued parameter followed by more parameters: the default value ?1 must be re-established
+  [fn |-> "params",    pre |-> <<59, 97, 61, 49>>, alpha |-> {98, 59, 61, 50}, n |-> 3 + Extra],
   \* a 1 ; = SP ?
   [fn |-> "item",      pre |-> << >>,       alpha |-> {97, 49, 59, 61, 32, 63}, n |-> 4 + Extra],
   \* ( then a SP ) ; HTAB 1
